@@ -29,12 +29,9 @@ CHAR_SIGNED = {"x86_64-sysv": True, "aarch64": False, "riscv64": False}
 
 # defects found by this property and repaired in /repo (known_findings.json, status "fixed"):
 # fold-bool-cast 7c8b86a, fold-addr-swap-segv 536afbc, fold-int-float-double-rounding 0457315,
-# fold-cond-float-unfolded b66d549, literal-overflow-saturates 23c06f0.  Their witnesses are part
+# fold-cond-float-unfolded b66d549, literal-overflow-saturates 23c06f0, float-literal-not-rounded 1047c9e.
+# Their witnesses are part
 # of the probe sets below; a regression is an ordinary VIOLATION.
-
-
-FID_FLIT = "float-literal-not-rounded"
-QUIRK = set()   # alternative semantics describing a recorded deviation ("flit": 0.1f keeps its double value)
 
 
 class UB(Exception):
@@ -310,13 +307,13 @@ class Lit(Node):
         return self.text
 
     def ev(self, targ):
-        return self.tname, (self.raw if "flit" in QUIRK else self.value)
+        return self.tname, self.value
 
     def sx(self, targ):
         t = self.tname
         if is_flt(t):
-            # the model is given what primaryexpr stores: strtod()'s double, also for an `f` suffix
-            return t, "(c %s %d)" % (mty(t, targ), dbits(self.raw))
+            # what primaryexpr stores: strtod()'s double, strtof()'s float for an `f` suffix (1047c9e)
+            return t, "(c %s %d)" % (mty(t, targ), dbits(self.value))
         return t, "(c %s %d)" % (mty(t, targ), self.value & M64)
 
 
@@ -722,25 +719,8 @@ def run_value_probes(ck, cp, probes, targ, what, stats):
         replay = {"kind": "wrong-fold", "target": targ, "program": prog, "expected": exp[i], "compiler": got,
                   "model": m, "context": what}
         if not ok:
-            fid = None
-            if same_mc:
-                QUIRK.add("flit")
-                try:
-                    t, v = p.e.ev(targ)
-                    q = expect_obs(p.dest, conv_value(v, t, p.dest, targ), targ)
-                except (UB, OverflowError):
-                    q = ("rejected", None)
-                finally:
-                    QUIRK.discard("flit")
-                if q != exp[i] and (q == got or nan_equal(q, got, p.dest) or q[0] == got[0] == "rejected"):
-                    fid = FID_FLIT
-            if fid:
-                ck.report(dict(replay, what="a floating constant with suffix f keeps the double value strtod returned "
-                               "(not rounded to float)", finding=fid), fid=fid)
-                stats["known:" + fid] = stats.get("known:" + fid, 0) + 1
-            else:
-                ck.violation(dict(replay, what="constant folded to a value C does not give"))
-                stats["violations"] += 1
+            ck.violation(dict(replay, what="constant folded to a value C does not give"))
+            stats["violations"] += 1
         else:
             ck.violation(dict(replay, what="compiler output satisfies C semantics but Model/Eval.lean does not "
                               "predict it", theorem="correspondence Model/Eval.lean ~ eval.c"), nofail=True)
